@@ -314,6 +314,9 @@ T = [
      "            if let Some(meta) = events.initial.take() {", "            if let Some(meta) = events.initial {"),
     ("c11_feature_removed_without_finished", "C11/R6", "src/writer/normalize.rs",
      "                    .await;\n                return Some(f.clone());\n            }\n        }\n        None", "                    .await;\n            }\n            return Some(f.clone());\n        }\n        None"),
+    ("c20_before_hook_started_after_run", "C20/R5", B,
+     "            self.send_event(event::Cucumber::scenario(\n                feature.clone(),\n                rule.cloned(),\n                scenario.clone(),\n                event::Scenario::hook_started(HookType::Before)\n                    .with_retries(retries),\n            ));\n\n            let fut = init_world.and_then(async |mut world| {",
+     "            let fut = init_world.and_then(async |mut world| {\n//+\n            let result = fut.then_yield().await;\n//=\n            let result = fut.then_yield().await;\n            self.send_event(event::Cucumber::scenario(\n                feature.clone(),\n                rule.cloned(),\n                scenario.clone(),\n                event::Scenario::hook_started(HookType::Before)\n                    .with_retries(retries),\n            ));"),
 ]
 
 
